@@ -106,6 +106,18 @@ def api_lambdas():
         out[f"unit/{nm}/exp"], out[f"unit/{nm}/add"], out[f"unit/{nm}/where"] = pt.exp(u), u + 1, pt.where(pt.less(u, 0), u, 0.0)
         out[f"unit/{nm}/sum"], out[f"unit/{nm}/maximum"] = pt.sum(u), pt.maximum(u, 0.5)
     out["unit/arctan2"] = pt.arctan2(I["u1"], I["u1"] * 2)
+    # 0-d operands
+    s0 = I["s"]
+    for fn in ("sin", "exp", "sqrt", "abs", "isnan", "tanh", "log"):
+        out[f"zerod/{fn}"] = getattr(pt, fn)(s0)
+    out["zerod/neg"], out["zerod/astype"], out["zerod/zeros_like"], out["zerod/ones_like"] = -s0, s0.astype(np.float32), \
+        pt.zeros_like(s0), pt.ones_like(s0)
+    out["zerod/arctan2"], out["zerod/norm"], out["zerod/where"] = pt.arctan2(s0, s0 + 1), pt.sqrt(pt.sum(x * x)), \
+        pt.where(pt.less(s0, 0), s0, 1.0)
+    out["zerod/maximum"] = pt.maximum(s0, 0.5)
+    zc = pt.make_placeholder("zc", (), C128)
+    I["zc"] = zc
+    out["zerod/real"], out["zerod/conj"], out["zerod/absc"] = pt.real(zc), pt.conj(zc), pt.abs(zc)
     return I, out
 
 
